@@ -5,9 +5,8 @@ import FV.Model.Spectral
   op table for the placement models: force-directed relocation (C13) and spectral placement (C14).
 
   Mode `F` runs the models at `Float` with `Float.sqrt` / `Float.pow` (libm, as CPython does); the opaque
-  disc-overlap parameter of the force model is instantiated by `discF`, a transcription of
-  `circle_circle_intersection_area` with the `acos` arguments clamped to [-1, 1] (the value is the same
-  wherever the unclamped Python returns).  Mode `Q` (exact rationals) is available for the ops that need no
+  disc-overlap parameter of the force model is instantiated by `discF`, a transcription of the (repaired)
+  `circle_circle_intersection_area`; it is compared with the Python to 1e-9, never judged here (C17 owns it).  Mode `Q` (exact rationals) is available for the ops that need no
   square root.
 -/
 namespace FV.Drv
@@ -20,18 +19,28 @@ def opsF : Ops Float where
   pi := 3.141592653589793
   ltInf := fun x => x < (1.0 / 0.0)
 
-/-- `circle_circle_intersection_area` at `Float` (driver-local instantiation of the opaque parameter). -/
+/-- `circle_circle_intersection_area` at `Float` (driver-local instantiation of the opaque parameter; transcription
+    of the repaired function: lengths relative to the larger radius, `acos` arguments and result clamped). -/
 def discF (c1 : Float × Float) (r1 : Float) (c2 : Float × Float) (r2 : Float) : Float :=
   let dx := c1.1 + -c2.1
   let dy := c1.2 + -c2.2
   let d := Float.pow (Float.pow dx 2.0 + Float.pow dy 2.0) 0.5
-  if d > r1 + r2 then 0.0
-  else if d ≤ Float.abs (r1 - r2) then 3.141592653589793 * Float.pow (if r2 < r1 then r2 else r1) 2.0
-  else
-    let cl := fun (x : Float) => if x > 1.0 then 1.0 else if x < -1.0 then -1.0 else x
-    let a := Float.acos (cl ((Float.pow r1 2.0 + Float.pow d 2.0 - Float.pow r2 2.0) / (2.0 * r1 * d)))
-    let b := Float.acos (cl ((Float.pow r2 2.0 + Float.pow d 2.0 - Float.pow r1 2.0) / (2.0 * r2 * d)))
-    Float.pow r1 2.0 * a + Float.pow r2 2.0 * b - d * r1 * Float.sin a
+  if d > r1 + r2 then 0.0 else
+  let small := 3.141592653589793 * Float.pow (if r2 < r1 then r2 else r1) 2.0
+  if d ≤ Float.abs (r1 - r2) then small else
+  let s := if r2 > r1 then r2 else r1
+  let a := r1 / s
+  let b := r2 / s
+  let e := d / s
+  let den1 := 2.0 * a * e
+  let den2 := 2.0 * b * e
+  if den1 == 0.0 || den2 == 0.0 then small else
+  let cl := fun (x : Float) => let m := if x < 1.0 then x else 1.0; if m > -1.0 then m else -1.0
+  let al := Float.acos (cl ((Float.pow a 2.0 + Float.pow e 2.0 - Float.pow b 2.0) / den1))
+  let be := Float.acos (cl ((Float.pow b 2.0 + Float.pow e 2.0 - Float.pow a 2.0) / den2))
+  let v := (Float.pow a 2.0 * al + Float.pow b 2.0 * be - e * a * Float.sin al) * s * s
+  let v0 := if v > 0.0 then v else 0.0
+  if v0 < small then v0 else small
 
 variable {α : Type} [Add α] [Sub α] [Mul α] [Div α] [Neg α] [LT α] [LE α]
   [DecidableLT α] [DecidableLE α] [NatCast α] [ScalarIO α]
